@@ -74,6 +74,7 @@ fn dispatch(sub: &str, a: &Args) -> Option<Report> {
     "oprf-check" => oprf::oprf_check(a),
     "dleq-replay" => oprf::dleq_replay(a),
     "nonce-check" => oprf::nonce_check(a),
+    "dleq-forge" => oprf::dleq_forge(a),
     "proof-complete" => oprf::proof_complete(a),
     "serde-check" => oprf::serde_check(a),
     "protocol-replay" => protocol::replay(a),
@@ -85,6 +86,7 @@ fn dispatch(sub: &str, a: &Args) -> Option<Report> {
     "tamper-sweep" => star2::tamper_sweep(a),
     "adss-sizes" => star2::adss_sizes(a),
     "secret-scan" => star2::secret_scan(a),
+    "generator-reuse" => star2::generator_reuse(a),
     "length-sweep" => star2::length_sweep(a),
     "cipher-check" => star2::cipher_check(a),
     _ => return None,
